@@ -7,6 +7,8 @@ import KyupyVerif.Proofs.SubstituteRes
 import KyupyVerif.Proofs.SubstSem9
 import KyupyVerif.Proofs.SubstResolve
 import KyupyVerif.Proofs.SubstSem10
+import KyupyVerif.Proofs.SubstGen17
+import KyupyVerif.Proofs.SubstGen23
 /-! # C10 — copy, pickle, fork elimination and cell substitution preserve function
 
 Objects of the theorems: the hand-written models `KV.Transform` of `Circuit.copy`, `__getstate__/__setstate__`,
@@ -92,15 +94,39 @@ driver raises, or is passed over — patch 06, the current tree).
     removed as in `remove_dangling_sem` (the loop `densify` in between is absorbed: it is an identity embedding).  The
     result need not satisfy `NNet.wf`: `Line.remove()` leaves a trailing `None` in
     the pin list of a cell (example `exImplFZ`; then `copy_dump_eq` does not apply to it).
-    NOT covered (modelled, covered by `substitute_ports` / `substitute_state_perm` and the oracle only): an input pin that
-    the implementation ignores (`Line.remove` renumbers lines inside the loop), an implementation without designated cell
-    (`node.remove()`: no output and no state element, or — since the repair of D32 — a feed-through), implementations
-    violating `implOKB`.
+    Not covered by THESE theorems (but by `substitute_sem_general` below): an input pin that the implementation ignores
+    (`Line.remove` renumbers lines inside the loop), an implementation without designated cell (`node.remove()`: no output
+    and no state element, or — since the repair of D32 — a feed-through).
+  - **`substitute_sem_general`** (statement `SubstGenStmt`; Proofs/SubstGen1-17, Proofs/WFr.lean) — the semantic statement along
+    **index maps** for EVERY use of `substitute` under the decidable side conditions `implGenOKB` (= `implOKB` without the clause
+    "a designated cell exists": ports distinct, no port a flip-flop/latch, driven ports read inside are forks) and `noSelfIgnB`
+    (no connected ignored pin is driven by the cell itself), host well-formed only up to trailing `None`s (`wfNoTrail`), cell
+    neither port nor fork: (a) connected input pins that the implementation IGNORES (`ll.reader = None; ll.remove()` in the
+    middle of the connecting loop: swap-with-last renumbering of the lines, squeeze of a driving fork), (b) implementations
+    WITHOUT designated cell (`node.remove()`: the last node takes the index of the instance; filler / antenna cells, feed-through),
+    unconnected pins and dangling logic as before.  `R.node j'` / `R.line l'` = canonical index (host index; `map[j]` for the copy of
+    implementation node `j`; `h.lines.size + t` for the `t`-th copied line) of node / line of the result: injective, ports in
+    order, every host node other than the cell survives with kind, name and renamed input lines, every flip-flop/latch of the
+    implementation survives, only host lines that end at the cell can disappear, the result is well-formed up to trailing
+    `None`s; (1) every labelling of the result consistent outside `S` is the restriction of a labelling of the whole host
+    consistent outside `S ∪ {cell}` plus an `ImplMatches` labelling of the implementation — with prescribed values for the
+    removed lines that are driven by holes; (2) the converse.  Method: the real run is put in lockstep (`Lk`) with a virtual run
+    on the host in which the ignored pins count as unconnected and the instance is kept (certificate of the earlier theorems,
+    generalised to hosts with lines that are stale on the reader side, `WFr`); the real result embeds into the virtual one.
   - **`resolve_sem`** — `resolve_tlib_cells` (model `resolveCells`) when every substitution along the loop removes nothing
     (`resolveOKB`, decidable by running the model): the result is well-formed, keeps ports, other nodes and node keys, and
     its consistent labellings are exactly the labellings of the original circuit that are consistent outside the library
     cells and give every library cell the relational meaning (`ImplMatches`) of its implementation — by induction over the
     loop with `substitute_sem` for hole sets.
+  - **`resolve_sem_general`** (Proofs/SubstGen18-23) — `resolve_tlib_cells` through substitutions that REMOVE lines, instances and
+    dangling logic (`resolveGenOKB`: every substitution along the loop satisfies the hypotheses of `substitute_sem_general`;
+    decidable, evaluated by running the model; contains `resolveOKB`): index maps `ρ` from the result to the original circuit
+    (which node / line of the result IS which original node / line), result well-formed up to trailing `None`s, every original
+    node that is no library cell survives with kind, name and renamed input lines; (1) every consistent labelling of the result
+    is the restriction of a labelling of the WHOLE original circuit (removed lines included) that is consistent outside the
+    library cells and gives every library cell the relational meaning of its implementation with its ORIGINAL pins (a line
+    that an earlier substitution removed at an output pin of a cell substituted later takes the value of that cell's
+    implementation output: prescribed values of `SubstGenStmt`); (2) the converse.  By induction over the loop (`ResRelG`).
   - `resolve_ports` — `resolve_tlib_cells` (model `resolveCells`) keeps the port list, names and order, for every library.
 * **Correspondence** (harness/c10.py, differential, not proof): model dumps after copy / pickle round trip /
   `eliminate_1to1_forks` = dumps of the real objects on random circuits (both port styles, permuted node order,
@@ -113,12 +139,16 @@ driver raises, or is passed over — patch 06, the current tree).
   model's `regularB` = the harness's own reading of "regular use".  `resolve_tlib_cells` (driver command `resolve`) = the
   real method on random circuits instantiating cells of the five built-in libraries and of synthetic libraries.
 * **Oracle only** (harness/c10.py): for the uses of `substitute` / `resolve_tlib_cells` outside the hypotheses of
-  `substitute_sem` / `resolve_sem` (something is removed, `implOKB` fails) the semantic statement (Boolean function at
-  ports and state elements unchanged) is decided on the real code by simulation before/after (random compositions, every
-  library cell × pin subsets, synthetic libraries); the same simulation also runs on the covered uses.  The harness
-  evaluates `keepsAllB` / `implOKB` / `noIgnoredB` / `resolveOKB` / `denseB` on every real case of the correspondence streams
-  (driver commands `substok` / `resolveok`), counts how many fall under the theorems (tags `sem-hyp:*`, with
-  `sem-hyp:covered-gap` = a copied fork had a gap) and checks `wf` of the REAL result there.
+  `substitute_sem_general` / `resolve_sem_general` (an implementation violating `implGenOKB`: a port that is a flip-flop, a driven
+  port read inside that is no fork, duplicate ports; a cell that is a port or a fork; an ignored pin driven by the cell itself)
+  the semantic statement (Boolean function at ports and state elements unchanged) is decided on the real code by simulation
+  before/after (random compositions, every library cell × pin subsets, synthetic libraries); the same simulation also runs on the
+  covered uses.  The harness evaluates `keepsAllB` / `implOKB` / `noIgnoredB` / `resolveOKB` / `denseB` and `implGenOKB` / `noSelfIgnB` /
+  `resolveGenOKB` on every real case of the correspondence streams (driver commands `substok` / `resolveok`), counts how many
+  fall under the theorems (tags `sem-hyp:*`: `covered`, `covered-removing`, `covered-gap` = a copied fork had a gap,
+  `covered-general-ignored-pin` / `covered-general-no-designated-cell` / `covered-general` = only under the general theorems;
+  coverage keys `corr_subst_in_hypotheses_of_substitute_sem_general`, `corr_resolve_in_hypotheses_of_resolve_sem_general`) and
+  checks `wf` / `wfNoTrail` of the REAL result there.
   D30 / D32 are repaired in the code under test; their witnesses (`FORK_GAP_WITNESS` in harness/c09.py,
   corpus/C10-designated-port.json) run first in every run and are violations if the behaviour returns. -/
 namespace KV.C10
@@ -389,7 +419,7 @@ theorem substitute_wiring (h m h' : NNet) (c : Nat) (hw : h.wf = true) (hc : c <
         (h'.net.line l).reader = (h.net.line l).reader ∧ (h'.net.line l).rpin = (h.net.line l).rpin) := by
   have w := WF.of_wf hw
   obtain ⟨sh, dn, map, hs, hd, hcore, hni⟩ := substitute_regular_eq h c m h' hr hdense he
-  obtain ⟨fr, hm, win, wout⟩ := substituteCore_wire h c m sh hs w hc dn hd hni h' map [] hcore
+  obtain ⟨fr, hm, win, wout⟩ := substituteCore_wire h c m sh hs w.toWFr hc dn hd hni h' map [] hcore
   refine ⟨sh, map, hs, hm, win, wout, fr.node, ?_, ?_⟩
   · intro l hl hne
     apply fr.drv l hl
@@ -571,13 +601,13 @@ theorem substitute_sem_removing {α : Type _} (h m h' : NNet) (c : Nat) (hw : h.
         ConsOff h (fun d => S d ∨ d = c) z neg prim an v → ImplMatches h c m sh z neg prim anm vm v →
         ∃ an5 v5 : Nat → α, ConsOff h' (fun j' => S (r.node j')) z neg prim (fun j => an5 (r.node j)) (fun l => v5 (r.line l)) ∧
           (∀ l, l < h.net.lines.size → v5 l = v l) ∧ (∀ d, d < h.net.nodes.size → d ≠ c → an5 d = an d)) := by
-  obtain ⟨h5, map, dang, sh, dn, r, hcore, ct, w', e, sq, ex⟩ :=
+  obtain ⟨h5, map, dang, sh, dn, r, hcore, ct, w5, hdl, w', e, sq, ex⟩ :=
     substitute_removing z neg prim h m h' c (WF.of_wf hw) (WF.of_wf mw) hc hio hcf hr hok he
   have hkeep : keepsAllB h c m = true → h' = { h5 with net := densify h5.net map } := by
     intro hk
     obtain ⟨_, _, h5', map', dang', _, _, hcore', e', _⟩ := substitute_keepsAll_eq h c m h' hk he (fun h5' map' dang' hc' => by
       rw [hcore] at hc'
-      rw [← (Prod.mk.inj (Option.some.inj hc')).1]; exact ct.wf')
+      rw [← (Prod.mk.inj (Option.some.inj hc')).1]; exact w5)
     rw [hcore] at hcore'
     obtain ⟨e1, e2⟩ := Prod.mk.inj (Option.some.inj hcore')
     obtain ⟨e2, _⟩ := Prod.mk.inj e2
@@ -597,7 +627,7 @@ theorem substitute_sem_removing {α : Type _} (h m h' : NNet) (c : Nat) (hw : h.
     subst this
     obtain ⟨an5, v5, c5, b1, b2, _⟩ := ct.backward z neg prim S an v anm vm hH hM
     exact ⟨an5, v5, e.restrict S z neg prim an5 v5 c5, b1, b2⟩
-  · exact ⟨sh, dn, map, ct.shape, ct.des, wf_of_WF ct.wf', ct.mapDn,
+  · exact ⟨sh, dn, map, ct.shape, ct.des hdl, wf_of_WF w5, ct.mapDn hdl,
       fun j x hm => ⟨ct.mapM j x hm, ct.mapGe j x hm, ct.mapLt j x hm, ct.kind' j x hm⟩, ct.mapInj, ct.io', ct.frameNode, ct.lsize,
       fun S hS an' v' hc' => ct.forward z neg prim S hS an' v' hc',
       fun S an v anm vm hH hM => ct.backward z neg prim S an v anm vm hH hM⟩
@@ -902,6 +932,207 @@ example : exHost.wf = true ∧ resolveOKB [("AOCELL", exImpl)] exHost.keys exHos
 example : exHost.wf = true ∧ (exHost.net.io.all fun i => (Lib.find [("AOCELL", exImpl)] (exHost.net.node i).kind).isNone) = true ∧
     (resolveCells [("AOCELL", exImpl)] exHost).map (fun r => (r.net.nodes.size, r.ioNames)) = some (11, ["a", "b", "z", "q"]) := by
   decide +kernel
+
+/-! ## the general semantic statement about `substitute` (ignored input pins, implementations without designated cell) -/
+
+/-- **the general semantic statement about `substitute`** (conclusion of `substitute_sem_general`).  `substitute` may remove things: the host
+    line at an instance pin that the implementation ignores (`Line.remove()`, the last line takes its index), the instance
+    itself when the implementation has no designated cell (`Node.remove()`, the last node takes its index), dangling logic
+    behind an unconnected output.  Host line / node indices are therefore not stable, and the statement is along **index maps**
+    `R` (as `elim_sem` / `remove_dangling_sem`): `R.node j'` / `R.line l'` = the *canonical index* of node `j'` / line `l'` of the
+    result `h'`, where a host node or line has its index in `h`, the copy of implementation node `j` has index `map[j]`
+    (`node_map`: `c` for the designated cell, indices behind the host's nodes for the others) and the copy of the `t`-th copied
+    implementation line (`copiedLines m map`) has index `h.lines.size + t`; `glueV h m map v vm` = the labelling of the
+    canonical indices made of a host labelling `v` and an implementation labelling `vm`.
+    * `h'` is well-formed up to trailing `None`s; `R` is injective on nodes and on lines; ports are kept in order;
+    * every host node other than the cell survives, with kind, name and (pin by pin, renamed) the same input lines; every
+      flip-flop / latch of the implementation survives; only host lines that END AT THE CELL can disappear (the lines at
+      ignored pins, lines into removed dangling logic); a surviving host line not driven by the cell keeps its driver (and
+      its driver pin, unless the driver is a fork, whose outputs `Line.remove()` squeezes);
+    * **(1)** every labelling `(an', v')` of `h'` that is consistent outside `S` (any set of host nodes other than the cell,
+      read through `R`) comes from a labelling `(an, v)` of the WHOLE host that is consistent outside `S ∪ {c}` and a labelling
+      `(anm, vm)` of the implementation with `ImplMatches h c m sh anm vm v` (the cell means its implementation), `v'` being
+      the restriction of `glueV … v vm` along `R`; the values of the removed host lines that are driven by a hole in `S`
+      can be prescribed (`pre`) — no equation constrains them (used by `resolve_sem_general`, where a removed line may be
+      driven by a cell that is substituted later);
+    * **(2)** conversely every such pair glues and restricts to a labelling of `h'` consistent outside `S`. -/
+def SubstGenStmt {α : Type _} (h m h' : NNet) (c : Nat) (z : α) (neg : α → α) (prim : String → α → α → α → α → α) : Prop :=
+    ∃ (sh : Shape) (map : Array (Option Nat)) (R : Ren),
+      implShape m = some sh ∧ h'.wfNoTrail = true ∧
+      -- `node_map`
+      (∀ j x, map.getD j none = some x → j < m.net.nodes.size ∧ (x = c ∨ h.net.nodes.size ≤ x)) ∧
+      (∀ j1 j2 x, map.getD j1 none = some x → map.getD j2 none = some x → j1 = j2) ∧
+      -- the index maps
+      (∀ j1 j2, j1 < h'.net.nodes.size → j2 < h'.net.nodes.size → R.node j1 = R.node j2 → j1 = j2) ∧
+      (∀ l1 l2, l1 < h'.net.lines.size → l2 < h'.net.lines.size → R.line l1 = R.line l2 → l1 = l2) ∧
+      (∀ l', l' < h'.net.lines.size → R.line l' < h.net.lines.size + (copiedLines m map).length) ∧
+      h'.net.io.map R.node = h.net.io ∧
+      (∀ j', j' < h'.net.nodes.size → R.node j' < h.net.nodes.size → R.node j' ≠ c →
+        (h'.net.node j').kind = (h.net.node (R.node j')).kind ∧ h'.names.getD j' "" = h.names.getD (R.node j') "" ∧
+        ∀ k, ((h'.net.node j').inPin k).map R.line = (h.net.node (R.node j')).inPin k) ∧
+      (∀ j x j', map.getD j none = some x → j' < h'.net.nodes.size → R.node j' = x →
+        (h'.net.node j').kind = if j ∈ m.net.io then "__fork__" else (m.net.node j).kind) ∧
+      -- what survives
+      (∀ d, d < h.net.nodes.size → d ≠ c → ∃ j', j' < h'.net.nodes.size ∧ R.node j' = d) ∧
+      (∀ j x, map.getD j none = some x → isSeqKind (if j ∈ m.net.io then "__fork__" else (m.net.node j).kind) = true →
+        ∃ j', j' < h'.net.nodes.size ∧ R.node j' = x) ∧
+      (∀ l, l < h.net.lines.size → (h.net.line l).reader ≠ c → ∃ l', l' < h'.net.lines.size ∧ R.line l' = l) ∧
+      (∀ l', l' < h'.net.lines.size → R.line l' < h.net.lines.size → (h.net.line (R.line l')).driver ≠ c →
+        R.node (h'.net.line l').driver = (h.net.line (R.line l')).driver ∧
+        ((h'.net.line l').dpin = (h.net.line (R.line l')).dpin ∨ (h.net.node (h.net.line (R.line l')).driver).isFork = true)) ∧
+      -- (1) result ⇒ host with the cell meaning its implementation
+      (∀ (S : Nat → Prop), (∀ s, S s → s < h.net.nodes.size ∧ s ≠ c) → ∀ (pre an' v' : Nat → α),
+        ConsOff h' (fun j' => S (R.node j')) z neg prim an' v' →
+        ∃ an v anm vm, ConsOff h (fun d => S d ∨ d = c) z neg prim an v ∧ ImplMatches h c m sh z neg prim anm vm v ∧
+          (∀ l', l' < h'.net.lines.size → v' l' = glueV h m map v vm (R.line l')) ∧
+          (∀ j', j' < h'.net.nodes.size → R.node j' < h.net.nodes.size → R.node j' ≠ c → an' j' = an (R.node j')) ∧
+          (∀ j x j', j ∉ m.net.io → map.getD j none = some x → j' < h'.net.nodes.size → R.node j' = x → an' j' = anm j) ∧
+          (∀ l, l < h.net.lines.size → (¬ ∃ l', l' < h'.net.lines.size ∧ R.line l' = l) → S (h.net.line l).driver → v l = pre l)) ∧
+      -- (2) host with the cell meaning its implementation ⇒ result
+      (∀ (S : Nat → Prop) (an v anm vm : Nat → α), ConsOff h (fun d => S d ∨ d = c) z neg prim an v →
+        ImplMatches h c m sh z neg prim anm vm v →
+        ∃ an' v', ConsOff h' (fun j' => S (R.node j')) z neg prim an' v' ∧
+          (∀ l', l' < h'.net.lines.size → v' l' = glueV h m map v vm (R.line l')) ∧
+          (∀ j', j' < h'.net.nodes.size → R.node j' < h.net.nodes.size → R.node j' ≠ c → an' j' = an (R.node j')) ∧
+          (∀ j x j', j ∉ m.net.io → map.getD j none = some x → j' < h'.net.nodes.size → R.node j' = x → an' j' = anm j))
+
+/-- **`substitute` preserves the function — general case**: every host that is well-formed up to trailing `None`s (as left by an earlier
+    substitution), every well-formed implementation satisfying `implGenOKB` (ports distinct, no port a flip-flop/latch,
+    driven ports that are read inside are forks — WITH or WITHOUT designated cell), cell neither port nor fork, connected
+    input pins may be IGNORED by the implementation (`noSelfIgnB`: such a pin is not driven by the cell itself), input and
+    output pins may be unconnected, dangling logic is removed: `SubstGenStmt` holds.  Contains the uses of `substitute_sem` /
+    `substitute_sem_removing` and the two cases those leave to the oracle: (a) an ignored connected input pin (`Line.remove()`
+    renumbers the lines in the middle of the connecting loop), (b) no designated cell (`node.remove()` renumbers the nodes). -/
+theorem substitute_sem_general {α : Type _} (h m h' : NNet) (c : Nat) (hw : h.wfNoTrail = true) (mw : m.wf = true)
+    (hc : c < h.net.nodes.size) (hio : h.net.io.contains c = false) (hcf : (h.net.node c).isFork = false)
+    (hok : implGenOKB m = true) (hns : noSelfIgnB h c m = true) (he : substitute h c m = some h')
+    (z : α) (neg : α → α) (prim : String → α → α → α → α → α) : SubstGenStmt h m h' c z neg prim := by
+  obtain ⟨sh, map, R, hs, g⟩ := substitute_general z neg prim h m h' c (WFm.of_wfNoTrail hw) (WF.of_wf mw) hc (by simpa using hio) hcf
+    hok hns he
+  exact ⟨sh, map, R, hs, wfNoTrail_of_WFm g.wf', g.mapM, g.mapInj, g.nodeInj, g.lineInj, g.lineLt, g.io, g.hostNode, g.copyNode,
+    g.hostSurj, g.seqSurj, g.lineSurj, g.hostDrv, g.fw, g.bw⟩
+
+/-! ### non-vacuity of `substitute_sem_general` -/
+/-- (a) a cell that ignores an input pin: `TBUF`-style `input(A,EN) output(Z) Z=BUF1(A)` as `TechLib` builds it (port `EN`, node 1,
+    has no reader) -/
+def exTbuf : NNet :=
+  { net := { nodes := #[⟨"__fork__", [], [some 0]⟩, ⟨"__fork__", [], []⟩, ⟨"__fork__", [some 1], []⟩, ⟨"BUF1", [some 0], [some 1]⟩],
+             lines := #[⟨0, 0, 3, 0⟩, ⟨3, 0, 2, 0⟩], io := [0, 1, 2] },
+    names := #["A", "EN", "Z", "Z"] }
+/-- host: `u = TBUF(a, en)`, `z = u`; the fork `en` also feeds an inverter `n` -/
+def exTbufHost : NNet :=
+  { net := { nodes := #[⟨"input", [], [some 0]⟩, ⟨"input", [], [some 4]⟩, ⟨"TBUF", [some 0, some 1], [some 2]⟩, ⟨"output", [some 2], []⟩,
+                        ⟨"__fork__", [some 4], [some 1, some 3]⟩, ⟨"INV1", [some 3], [some 5]⟩, ⟨"output", [some 5], []⟩],
+             lines := #[⟨0, 0, 2, 0⟩, ⟨4, 0, 2, 1⟩, ⟨2, 0, 3, 0⟩, ⟨4, 1, 5, 0⟩, ⟨1, 0, 4, 0⟩, ⟨5, 0, 6, 0⟩], io := [0, 1, 3, 6] },
+    names := #["a", "en", "u", "z", "en", "n", "y"] }
+/-- hypotheses of `substitute_sem_general` on the `TBUF` example: the enable pin is connected and ignored (`hasIgnoredB`; so
+    `noIgnoredB` fails and `substitute_sem` / `substitute_sem_removing` do not apply); `Line.remove()` deletes line 1, the last
+    line (5) takes its index, the fork `en` is squeezed (line 3 moves from output pin 1 to pin 0) -/
+example : exTbufHost.wfNoTrail = true ∧ exTbuf.wf = true ∧ exTbufHost.net.io.contains 2 = false ∧
+    (exTbufHost.net.node 2).isFork = false ∧ implGenOKB exTbuf = true ∧ noSelfIgnB exTbufHost 2 exTbuf = true ∧
+    hasIgnoredB exTbufHost 2 exTbuf = true ∧ noIgnoredB exTbufHost 2 exTbuf = false ∧
+    (substitute exTbufHost 2 exTbuf).map (fun r => (r.wf, r.net.lines.toList, (r.net.node 2).kind, (r.net.node 4).outs)) =
+      some (true, [⟨0, 0, 2, 0⟩, ⟨5, 0, 6, 0⟩, ⟨2, 0, 3, 0⟩, ⟨4, 0, 5, 0⟩, ⟨1, 0, 4, 0⟩], "BUF1", [some 3]) := by decide +kernel
+
+/-- (b) a cell without output (antenna / filler): `input(A)`; no designated cell, the instance is removed (`node.remove()`: the last
+    node takes its index) together with the line at its ignored pin -/
+def exAnt : NNet := { net := { nodes := #[⟨"__fork__", [], []⟩], lines := #[], io := [0] }, names := #["A"] }
+def exAntHost : NNet :=
+  { net := { nodes := #[⟨"input", [], [some 0]⟩, ⟨"__fork__", [some 0], [some 1, some 2]⟩, ⟨"ANTENNA", [some 1], []⟩, ⟨"output", [some 2], []⟩],
+             lines := #[⟨0, 0, 1, 0⟩, ⟨1, 0, 2, 0⟩, ⟨1, 1, 3, 0⟩], io := [0, 3] },
+    names := #["a", "a", "u", "z"] }
+example : exAntHost.wfNoTrail = true ∧ exAnt.wf = true ∧ exAntHost.net.io.contains 2 = false ∧ (exAntHost.net.node 2).isFork = false ∧
+    implGenOKB exAnt = true ∧ noSelfIgnB exAntHost 2 exAnt = true ∧ (implShape exAnt).map (·.des) = some none ∧ implOKB exAnt = false ∧
+    (substitute exAntHost 2 exAnt).map (fun r => (r.wf, r.kindNames, r.net.lines.toList, r.net.io)) =
+      some (true, [("input", "a"), ("__fork__", "a"), ("output", "z")], [⟨0, 0, 1, 0⟩, ⟨1, 0, 2, 0⟩], [0, 2]) := by decide +kernel
+
+/-- (b) the feed-through `input A -> fork a -> output X` (since the repair of D32 without designated cell): hypotheses of
+    `substitute_sem_general` hold for `exFeedHost`, cell 1 -/
+example : exFeedHost.wfNoTrail = true ∧ exFeed.wf = true ∧ exFeedHost.net.io.contains 1 = false ∧ (exFeedHost.net.node 1).isFork = false ∧
+    implGenOKB exFeed = true ∧ noSelfIgnB exFeedHost 1 exFeed = true ∧ (implShape exFeed).map (·.des) = some none ∧
+    (substitute exFeedHost 1 exFeed).map (fun r => (r.wf, r.kindNames)) =
+      some (true, [("input", "i"), ("output", "o"), ("__fork__", "u~a")]) := by decide +kernel
+
+/-- a host that is well-formed only up to trailing `None`s (the result of `exHostFF` with `exImplFZ`: the `DFF` has `outs = [line, None]`)
+    satisfies the host hypothesis of `substitute_sem_general` — `substitute_sem` needs `wf` -/
+example : ((substitute exHostFF 2 exImplFZ).map fun r => (r.wf, r.wfNoTrail)) = some (false, true) := by decide +kernel
+
+/-! ## `resolve_tlib_cells` through substitutions that remove lines, instances and dangling logic -/
+
+/-- **`resolve_tlib_cells` preserves the function — general case** (model `resolveCells`; every substitution along the loop satisfies the
+    hypotheses of `substitute_sem_general`: `resolveGenOKB`, decidable, evaluated by running the model — implementations with
+    or without designated cell, ignored input pins, unconnected outputs with dangling logic; the circuit between two
+    substitutions is well-formed only up to trailing `None`s).  With `cell x` = "`x` is a node of the original circuit `h` whose
+    kind is in the library" and index maps `ρ` from the result `h'` to `h` (`ρ.node j < h.nodes.size`: node `j` of `h'` IS the
+    original node `ρ.node j`; `ρ.line l < h.lines.size`: line `l` of `h'` IS the original line `ρ.line l`; injective there):
+    the result is well-formed up to trailing `None`s and keeps the ports in order; every original node that is no library cell
+    survives with kind, name and (pin by pin, renamed) its input lines;
+    **(1)** every consistent labelling `(an', v')` of the result is the restriction (along `ρ`) of a labelling `(an, v)` of the WHOLE
+    original circuit — the removed lines included — that is consistent outside the library cells and gives every library
+    cell `c` the relational meaning of its implementation (`ImplMatches`, with the ORIGINAL pins of `c`, also those whose
+    lines a substitution removed); **(2)** conversely every such labelling of the original circuit restricts/extends to a
+    consistent labelling of the result. -/
+theorem resolve_sem_general {α : Type _} (lib : Lib) (h h' : NNet) (hw : h.wfNoTrail = true) (hok : resolveGenOKB lib h.keys h = true)
+    (he : resolveCells lib h = some h') (z : α) (neg : α → α) (prim : String → α → α → α → α → α) :
+    h'.wfNoTrail = true ∧ ∃ ρ : Ren,
+      h'.net.io.map ρ.node = h.net.io ∧
+      (∀ j1 j2, j1 < h'.net.nodes.size → j2 < h'.net.nodes.size → ρ.node j1 < h.net.nodes.size → ρ.node j1 = ρ.node j2 → j1 = j2) ∧
+      (∀ l1 l2, l1 < h'.net.lines.size → l2 < h'.net.lines.size → ρ.line l1 < h.net.lines.size → ρ.line l1 = ρ.line l2 → l1 = l2) ∧
+      (∀ d, d < h.net.nodes.size → (lib.find (h.net.node d).kind).isSome = false →
+        ∃ j, j < h'.net.nodes.size ∧ ρ.node j = d ∧ (h'.net.node j).kind = (h.net.node d).kind ∧
+          h'.names.getD j "" = h.names.getD d "" ∧ ∀ k, ((h'.net.node j).inPin k).map ρ.line = (h.net.node d).inPin k) ∧
+      (∀ an' v' : Nat → α, ConsOff h' (fun _ => False) z neg prim an' v' →
+        ∃ an v, ConsOff h (fun x => x < h.net.nodes.size ∧ (lib.find (h.net.node x).kind).isSome = true) z neg prim an v ∧
+          (∀ c, c < h.net.nodes.size → (lib.find (h.net.node c).kind).isSome = true →
+            ∃ impl sh anm vm, lib.find (h.net.node c).kind = some impl ∧ implShape impl = some sh ∧
+              ImplMatches h c impl sh z neg prim anm vm v) ∧
+          (∀ l', l' < h'.net.lines.size → ρ.line l' < h.net.lines.size → v (ρ.line l') = v' l') ∧
+          (∀ j, j < h'.net.nodes.size → ρ.node j < h.net.nodes.size → an (ρ.node j) = an' j)) ∧
+      (∀ an v : Nat → α,
+        ConsOff h (fun x => x < h.net.nodes.size ∧ (lib.find (h.net.node x).kind).isSome = true) z neg prim an v →
+        (∀ c, c < h.net.nodes.size → (lib.find (h.net.node c).kind).isSome = true →
+          ∃ impl sh anm vm, lib.find (h.net.node c).kind = some impl ∧ implShape impl = some sh ∧
+            ImplMatches h c impl sh z neg prim anm vm v) →
+        ∃ an' v', ConsOff h' (fun _ => False) z neg prim an' v' ∧
+          (∀ l', l' < h'.net.lines.size → ρ.line l' < h.net.lines.size → v' l' = v (ρ.line l')) ∧
+          (∀ j, j < h'.net.nodes.size → ρ.node j < h.net.nodes.size → an' j = an (ρ.node j))) := by
+  obtain ⟨ρ, r⟩ := resolve_general_main lib h h' (WFm.of_wfNoTrail hw) z neg prim hok he
+  refine ⟨wfNoTrail_of_WFm r.wf, ρ, r.io, r.nodeInj, r.lineInj, ?_, ?_, ?_⟩
+  · intro d hd hn
+    obtain ⟨j, hj, ej⟩ := r.pos d hd (fun hc => by rw [hn] at hc; exact absurd hc.2 (by simp))
+    obtain ⟨n1, n2, n3⟩ := r.node j hj (ej ▸ hd)
+    rw [ej] at n1 n2 n3
+    exact ⟨j, hj, ej, n1, n2, n3⟩
+  · intro an' v' hc
+    obtain ⟨an, v, g1, g2, g3, g4, _⟩ := r.fw (fun _ => False) (fun _ hs => absurd hs id) (fun _ => z) an' v' hc
+    exact ⟨an, v, consOff_congr (fun x => by simp) g1, fun c hc1 hc2 => g2 c ⟨hc1, hc2⟩, g3, g4⟩
+  · intro an v hc hcells
+    obtain ⟨an', v', c1, e1, e2⟩ := r.bw (fun _ => False) (fun _ hs => absurd hs id) an v
+      (consOff_congr (fun x => by simp) hc) (fun c hc' => hcells c hc'.1 hc'.2)
+    exact ⟨an', v', c1, e1, e2⟩
+
+/-- hypotheses of `resolve_sem_general` are satisfiable where `resolve_sem` does not apply (`resolveOKB` false): a library with the
+    `TBUF`-style cell (ignored enable pin), the antenna cell (no output: the instance is removed) and `exImpl`; the enable fork
+    feeds the `TBUF`, the antenna and an inverter.  The result is consistent under the evaluator's labelling (direction (1) is
+    not vacuous) -/
+def exResHost : NNet :=
+  { net := { nodes := #[⟨"input", [], [some 0]⟩, ⟨"input", [], [some 1]⟩, ⟨"__fork__", [some 1], [some 2, some 3, some 4]⟩,
+                        ⟨"TBUF", [some 0, some 2], [some 5]⟩, ⟨"ANTENNA", [some 3], []⟩, ⟨"INV1", [some 4], [some 6]⟩,
+                        ⟨"AOCELL", [some 5, some 6], [some 7, some 8]⟩, ⟨"output", [some 7], []⟩, ⟨"output", [some 8], []⟩],
+             lines := #[⟨0, 0, 3, 0⟩, ⟨1, 0, 2, 0⟩, ⟨2, 0, 3, 1⟩, ⟨2, 1, 4, 0⟩, ⟨2, 2, 5, 0⟩, ⟨3, 0, 6, 0⟩, ⟨5, 0, 6, 1⟩, ⟨6, 0, 7, 0⟩,
+                        ⟨6, 1, 8, 0⟩],
+             io := [0, 1, 7, 8] },
+    names := #["a", "en", "en", "u", "ant", "n", "g", "x", "y"] }
+example : exResHost.wfNoTrail = true ∧
+    resolveGenOKB [("TBUF", exTbuf), ("ANTENNA", exAnt), ("AOCELL", exImpl)] exResHost.keys exResHost = true ∧
+    resolveOKB [("TBUF", exTbuf), ("ANTENNA", exAnt), ("AOCELL", exImpl)] exResHost.keys exResHost = false ∧
+    (resolveCells [("TBUF", exTbuf), ("ANTENNA", exAnt), ("AOCELL", exImpl)] exResHost).map (fun r => (r.wf, r.net.nodes.size,
+      r.net.lines.size,
+      consistentB r.net false (!·) prim2 (fun j => j == 0) (evalAll r.net false (!·) prim2 (fun j => j == 0)))) =
+      some (true, 12, 12, true) ∧
+    (resolveCells [("TBUF", exTbuf), ("ANTENNA", exAnt), ("AOCELL", exImpl)] exResHost).map (fun r => r.kindNames.take 8) =
+      some [("input", "a"), ("input", "en"), ("__fork__", "en"), ("BUF1", "u"), ("output", "y"), ("INV1", "n"),
+        ("INV1", "g"), ("output", "x")] := by decide +kernel
 
 end KV.C10
 
